@@ -18,6 +18,7 @@ from basilisp.lang.interfaces import (
     ITransientMap,
     IWithMeta,
     ReduceKVFunction,
+    lisp_equals,
 )
 from basilisp.lang.obj import (
     MAP_PRINT_SEPARATOR,
@@ -254,7 +255,12 @@ class PersistentMap(
             return NotImplemented
         if len(self._inner) != len(other):
             return False
-        return self._inner == other
+        sentinel = object()
+        for k, v in self._inner.items():
+            other_v = other.get(k, sentinel)
+            if other_v is sentinel or not lisp_equals(v, other_v):
+                return False
+        return True
 
     def __getitem__(self, item):
         return self._inner[item]
